@@ -52,6 +52,15 @@ class C12(common.Spec):
                 log.append(['end', loop.vt_us, ident, 'success'])
                 return ident
 
+            def coro_entry(value):
+                # OutputAsync calls this plain function and awaits what it returns; for some events the
+                # call itself fails (before there is anything to await)
+                if script.get(value, [0, 'ok'])[1] == 'fail_sync':
+                    log.append(['start', loop.vt_us, value])
+                    log.append(['end', loop.vt_us, value, 'error'])
+                    raise RuntimeError('output failed in the call')
+                return coro(value)
+
             class Dest(edzed.SBlock):
                 def init_regular(self):
                     self.set_output(0)
@@ -67,7 +76,7 @@ class C12(common.Spec):
             if case['stop_data']:
                 kw['stop_data'] = {'value': STOP_ID}
             out = edzed.OutputAsync(
-                'out', coro=coro, mode=case['mode'],
+                'out', coro=coro_entry, mode=case['mode'],
                 guard_time=case['guard_us'] / 1e6 if case['guard_us'] else None,
                 on_success=edzed.Event(dest, 'success'), on_error=edzed.Event(dest, 'error'),
                 on_cancel=edzed.Event(dest, 'cancel'), on_output=edzed.Event(dest, 'out'),
@@ -182,7 +191,7 @@ def gen_case(rng):
     times = sorted(rng.choice(grid) for _ in range(rng.randrange(1, 5)))
     puts = [[t, i + 1] for i, t in enumerate(times)]
     script = {str(i + 1): [rng.choice([50_000, 100_000, 150_000, 300_000]),
-                          rng.choice(['fail', 'fail', 'selfcancel']) if rng.random() < 0.3 else 'ok']
+                          rng.choice(['fail', 'fail', 'selfcancel', 'fail_sync']) if rng.random() < 0.3 else 'ok']
               for i in range(len(puts))}
     script[str(STOP_ID)] = [rng.choice([50_000, 100_000]), 'ok']
     script[str(LATE_ID)] = [rng.choice([50_000, 100_000]), 'ok']
